@@ -84,19 +84,29 @@ Definition rvariant_eqb (a b : rvariant) : bool :=
 Definition pair_eqb (a b : string * string) : bool :=
   String.eqb (fst a) (fst b) && String.eqb (snd a) (snd b).
 
+(* the order of the traits inside #[derive(...)] means nothing: derive lists are compared as
+   multisets (a repeated trait is a compile error, so multiplicity is kept) *)
+Fixpoint insert_str (x : string) (l : list string) : list string :=
+  match l with
+  | [] => [x]
+  | y :: r => if String.leb x y then x :: l else y :: insert_str x r
+  end.
+Definition sort_strs (l : list string) : list string := fold_right insert_str [] l.
+Definition derives_eqb (d d' : list string) : bool := lstr_eqb (sort_strs d) (sort_strs d').
+
 Definition ritem_eqb (a b : ritem) : bool :=
   match a, b with
   | IStruct n d c f, IStruct n' d' c' f' =>
-      String.eqb n n' && lstr_eqb d d' && ostr_eqb c c' && list_eqb rfield_eqb f f'
-  | IUnit n d c, IUnit n' d' c' => String.eqb n n' && lstr_eqb d d' && ostr_eqb c c'
+      String.eqb n n' && derives_eqb d d' && ostr_eqb c c' && list_eqb rfield_eqb f f'
+  | IUnit n d c, IUnit n' d' c' => String.eqb n n' && derives_eqb d d' && ostr_eqb c c'
   | ITagEnum n d c t v, ITagEnum n' d' c' t' v' =>
-      String.eqb n n' && lstr_eqb d d' && ostr_eqb c c' && String.eqb t t' && list_eqb rvariant_eqb v v'
+      String.eqb n n' && derives_eqb d d' && ostr_eqb c c' && String.eqb t t' && list_eqb rvariant_eqb v v'
   | IExtEnum n d c v, IExtEnum n' d' c' v' =>
-      String.eqb n n' && lstr_eqb d d' && ostr_eqb c c' && list_eqb rvariant_eqb v v'
+      String.eqb n n' && derives_eqb d d' && ostr_eqb c c' && list_eqb rvariant_eqb v v'
   | IUntagged n d v, IUntagged n' d' v' =>
-      String.eqb n n' && lstr_eqb d d' && list_eqb rvariant_eqb v v'
+      String.eqb n n' && derives_eqb d d' && list_eqb rvariant_eqb v v'
   | IStrEnum n d vs sa so da dd, IStrEnum n' d' vs' sa' so' da' dd' =>
-      String.eqb n n' && lstr_eqb d d' && lstr_eqb vs vs' && list_eqb pair_eqb sa sa' &&
+      String.eqb n n' && derives_eqb d d' && lstr_eqb vs vs' && list_eqb pair_eqb sa sa' &&
       Bool.eqb so so' && list_eqb pair_eqb da da' && Bool.eqb dd dd'
   | IAlias n t, IAlias n' t' => String.eqb n n' && rtype_eqb t t'
   | IAliasPath n p, IAliasPath n' p' => String.eqb n n' && lstr_eqb p p'
@@ -127,10 +137,29 @@ Record rmodule := mkModule {
   m_impl_body : list (string * string)      (* (QueryBody member, constant it is filled from) *)
 }.
 
+(* The order in which a module lists its items means nothing to Rust (and to none of the
+   properties): modules are compared up to it.  Stable insertion sort by item name, so that
+   items of one name (the collision classes K3/K4) keep their relative order. *)
+Fixpoint insert_item (x : ritem) (l : list ritem) : list ritem :=
+  match l with
+  | [] => [x]
+  | y :: r => if String.leb (item_name x) (item_name y) then x :: l else y :: insert_item x r
+  end.
+Definition sort_items (l : list ritem) : list ritem := fold_right insert_item [] l.
+
+(* ... and so is the order of its `use` declarations *)
+Definition use_key (p : list string) : string := fold_right (fun s acc => (s ++ "::" ++ acc)%string) "" p.
+Fixpoint insert_use (x : list string) (l : list (list string)) : list (list string) :=
+  match l with
+  | [] => [x]
+  | y :: r => if String.leb (use_key x) (use_key y) then x :: l else y :: insert_use x r
+  end.
+Definition sort_uses (l : list (list string)) : list (list string) := fold_right insert_use [] l.
+
 Definition rmodule_eqb (a b : rmodule) : bool :=
   opt_eqb (fun x y => String.eqb (fst x) (fst y) && vis_eqb (snd x) (snd y)) (m_struct_decl a) (m_struct_decl b) &&
   String.eqb (m_name a) (m_name b) && vis_eqb (m_vis a) (m_vis b) &&
   String.eqb (m_operation_name a) (m_operation_name b) && String.eqb (m_query a) (m_query b) &&
-  ostr_eqb (m_include a) (m_include b) && list_eqb lstr_eqb (m_uses a) (m_uses b) &&
-  list_eqb ritem_eqb (m_items a) (m_items b) && String.eqb (m_impl_for a) (m_impl_for b) &&
+  ostr_eqb (m_include a) (m_include b) && list_eqb lstr_eqb (sort_uses (m_uses a)) (sort_uses (m_uses b)) &&
+  list_eqb ritem_eqb (sort_items (m_items a)) (sort_items (m_items b)) && String.eqb (m_impl_for a) (m_impl_for b) &&
   list_eqb pair_eqb (m_impl_body a) (m_impl_body b).
